@@ -5,14 +5,16 @@ the application DBI) and the capture rule of LoadOnce (pendingLocal).  Binding (
 a LoadOnce that the specification flags as changing nothing must not record an LMDB transaction
 (LastTxnID unchanged, DBI set unchanged), a SendOnce never records one in native mode and only when it
 captured something in shadow mode; native behaviours are replayed with and without the header padding
-option.  The loop-level part (uploads only after a local change / start-up / forced interval) is decided
-by LSLoop (see C09/C03 machinery).
+option.  The loop-level part (uploads only after a local change or at start-up) is the action property
+NoEchoUpload of LSLoop.tla, checked by TLC and evaluated on the real loop stepped through its yield points.
 """
-import proto
+import proto, loopx
 
 
 def run(c):
     proto.run_suite(c, 'C10', padding_too=True)
+    # loop level: the decision to upload (LSLoop action property NoEchoUpload) on the real loop
+    loopx.run_suite(c, 'C10', with_window=False)
     c.assumptions += ['dupsort-hack DBIs are excluded from the no-commit clause (property text)', 'creating a missing DBI is a legitimate commit']
     c.extra['rule'] = 'protocol behaviours replayed on real Syncers with LastTxnID observed around every LS step'
 
